@@ -185,8 +185,12 @@ fn drive_chunks(v: &Verifier, limits: &[u64]) -> (Result<u64, ckb_error::Error>,
     let mut i = 0;
     let mut state: Option<TransactionState> = None;
     let mut rounds = 0u64;
+    // a limit below the cost of the next atomic step (e.g. the initial program load) makes no
+    // progress: the driver then doubles an extra allowance until the run moves again
+    let mut boost = 0u64;
+    let mut last: Option<(usize, u64)> = None;
     loop {
-        let l = limits[i.min(limits.len() - 1)];
+        let l = limits[i.min(limits.len() - 1)].saturating_add(boost);
         i += 1;
         rounds += 1;
         let r = match &state {
@@ -196,9 +200,18 @@ fn drive_chunks(v: &Verifier, limits: &[u64]) -> (Result<u64, ckb_error::Error>,
         match r {
             Err(e) => return (Err(e), rounds),
             Ok(VerifyResult::Completed(c)) => return (Ok(c), rounds),
-            Ok(VerifyResult::Suspended(s)) => state = Some(s),
+            Ok(VerifyResult::Suspended(s)) => {
+                let pos = (s.current, s.state.as_ref().map(|f| f.total_cycles).unwrap_or(0));
+                if last == Some(pos) {
+                    boost = (boost * 2).max(1);
+                } else {
+                    boost = 0;
+                }
+                last = Some(pos);
+                state = Some(s);
+            }
         }
-        assert!(rounds < 50_000_000, "chunk drive does not terminate");
+        assert!(rounds < 2_000_000, "chunk drive does not terminate");
     }
 }
 
